@@ -22,12 +22,12 @@ impl Address {
         }
 
         proof {
-            match (self, other) {
-                (Address::Domain(h1, p1), Address::Domain(h2, p2)) => {
+            match (other, self) {
+                (Address::Domain(h2, p2), Address::Domain(h1, p1)) => {
                     lemma_lex_equal(sbytes(*h1), sbytes(*h2));
                     if sbytes(*h1) == sbytes(*h2) { axiom_string_ext(*h1, *h2); }
                 }
-                (Address::Socket(a), Address::Socket(b)) => { lemma_sa_cmp_equal(*a, *b); }
+                (Address::Socket(b), Address::Socket(a)) => { lemma_sa_cmp_equal(*a, *b); }
                 _ => {}
             }
         }
